@@ -95,7 +95,11 @@ type env struct {
 	release func()
 }
 
-func rangeEnd(n int) string { return fmt.Sprintf("10.0.0.%d", 10+n-1) }
+func rangeEnd(n int) string {
+	ip := make(net.IP, 4)
+	binary.BigEndian.PutUint32(ip, 0x0a00000a+uint32(n)-1)
+	return ip.String()
+}
 
 func poolCIDR(n int) string {
 	bits := 0
@@ -623,4 +627,105 @@ func Specs(thorough bool) []Spec {
 		)
 	}
 	return out
+}
+
+// ---- wide scenarios: thousands of datagrams in flight at once ------------------------------
+
+// WideSpec: n datagrams from n different clients on a pool with room for all of them.
+func WideSpec(proto, n int) Spec {
+	sp := Spec{Name: fmt.Sprintf("v%d/wide-%d-clients-in-flight", proto, n), Proto: proto, Blocks: n + 8}
+	if proto == 6 {
+		b := 1
+		for b < n+8 {
+			b <<= 1
+		}
+		sp.Blocks = b
+	}
+	for i := 0; i < n; i++ {
+		mac := []byte{2, 0, 1, byte(i >> 16), byte(i >> 8), byte(i)}
+		if proto == 4 {
+			sp.Dgrams = append(sp.Dgrams, Discover4(mac, uint32(0x10000+i), nil))
+		} else {
+			sp.Dgrams = append(sp.Dgrams, Solicit6(mac, [3]byte{byte(1 + i>>16), byte(i >> 8), byte(i)}, true, false, ""))
+		}
+	}
+	return sp
+}
+
+// shape reduces an outcome to what every order of n distinct clients has in common.
+func (e *env) shape() (string, []sched.Viol) {
+	_, v := e.summarise()
+	if e.locked() {
+		return "LOCK-LEFT-HELD", v
+	}
+	xids, vals := map[string]bool{}, map[string]bool{}
+	for _, s := range e.sent {
+		if e.spec.Proto == 4 {
+			if rep, err := pkt.ParseV4(s.Data); err == nil {
+				xids[fmt.Sprintf("%08x", rep.Xid)] = true
+				vals[net.IP(rep.YI[:]).String()] = true
+			}
+		} else if rep, err := pkt.Parse6(s.Data); err == nil && rep.Msg != nil {
+			xids[fmt.Sprintf("%x", rep.Msg.Xid)] = true
+			for _, o := range rep.Msg.Opts {
+				if o.Code == 25 && len(o.Data) >= 12 {
+					sub, _ := pkt.ParseOpts6(o.Data[12:])
+					for _, so := range sub {
+						if so.Code == 26 && len(so.Data) >= 25 {
+							vals[fmt.Sprintf("%s/%d", net.IP(so.Data[9:25]), so.Data[8])] = true
+						}
+					}
+				}
+			}
+		}
+	}
+	return fmt.Sprintf("replies=%d answered-transactions=%d distinct-addresses-or-prefixes=%d", len(e.sent), len(xids), len(vals)), v
+}
+
+// Wide runs the spec once one-at-a-time and once with every datagram in flight at the same
+// time (round-robin schedule under the cooperative scheduler) and returns both shapes.
+func (sp Spec) Wide() (serial, wide string, viols []sched.Viol, steps int, engineErr string) {
+	e := newEnv(sp)
+	for _, d := range sp.Dgrams {
+		if e.locked() {
+			break
+		}
+		if sp.Proto == 4 {
+			o := srv.Run4(net.Interface{}, e.hs4, d, 1, &net.UDPAddr{IP: net.IPv4(10, 9, 9, 9), Port: 68})
+			e.sent = append(e.sent, o.Sent...)
+		} else {
+			o := srv.Run6(net.Interface{}, e.hs6, d, 1, &net.UDPAddr{IP: net.ParseIP("2001:db8::99"), Port: 546})
+			e.sent = append(e.sent, o.Sent...)
+		}
+	}
+	serial, _ = e.shape()
+	e.close()
+	e = newEnv(sp)
+	run := verifsched.NewRun(nil)
+	run.Policy, run.MaxSteps = verifsched.RoundRobin, 400*len(sp.Dgrams)+100000
+	run.Spawn("serve", e.serve)
+	run.Start()
+	if run.Horizon {
+		engineErr = "wide run exceeded its step horizon"
+	}
+	if run.Deadlock {
+		viols = append(viols, sched.Viol{Sig: "deadlock", What: fmt.Sprintf("no thread can run; blocked: %.300v", run.Blocked)})
+	}
+	for i := 0; i < run.NumThreads(); i++ {
+		if p := run.ThreadPanic(i); p != "" {
+			viols = append(viols, sched.Viol{Sig: "panic", What: fmt.Sprintf("thread %d panicked: %.600s", i, p)})
+			break
+		}
+	}
+	var v []sched.Viol
+	wide, v = e.shape()
+	seen := map[string]bool{}
+	for _, x := range v {
+		if !seen[x.Sig] {
+			seen[x.Sig] = true
+			viols = append(viols, x)
+		}
+	}
+	e.close()
+	return serial, wide, viols, run.Steps(), engineErr
 }
